@@ -307,6 +307,71 @@ def runHistory (imported : Exec) : List (Int × Exec) → List Exec → List (Op
     | some first => effectiveExec imported first now :: runHistory imported cache rest
     | none => effectiveExec imported now now :: runHistory imported ((now.threadId, now) :: cache) rest
 
+/-! ### one Catcher object used by several actors whose exits overlap
+
+`logger.catch()` returns ONE object; nothing stops an application from entering it in several threads / tasks at once
+(and the `Catcher(True)` a decoration creates is shared by every call of the decorated function).  A use through the
+`with` protocol calls `__exit__` directly, a use through `async with` goes through `__aexit__`.  The steps of different
+actors interleave arbitrarily.  `src` says where `__exit__` takes the extra-frame correction from (GENERATED:
+`Gen.exitFramesSrc`): `.param` – an argument of the call; `.selfAttr` – an attribute `__aexit__` sets before and resets
+after the call (the refuted shape). -/
+
+inductive Proto where
+  | sync | async
+  deriving DecidableEq, Repr
+
+/-- a step of actor `a`: `__aexit__` entered (before it calls `__exit__`), `__exit__` computes the depth and logs,
+`__aexit__` left -/
+inductive SStep where
+  | enter (a : Nat) | exit (a : Nat) | leave (a : Nat)
+  deriving DecidableEq, Repr
+
+/-- the `_frames` value the `async with` row of the generated table passes -/
+def asyncRowFrames : Int :=
+  ((Gen.catchRows.find? (fun w => w.shape == "async with".toList)).map (·.frames)).getD Gen.exitFramesDefault
+
+def protoFrames : Proto → Int
+  | .sync => Gen.exitFramesDefault
+  | .async => asyncRowFrames
+
+/-- state = (the object's attribute, the depths computed so far, per actor) -/
+def sharedStep (src : FramesSrc) (flag : Bool) (d : Int) (proto : Nat → Proto) :
+    Int × List (Nat × Int) → SStep → Int × List (Nat × Int)
+  | (extra, out), .enter a =>
+    (if src = .selfAttr ∧ proto a = .async then asyncRowFrames else extra, out)
+  | (extra, out), .exit a =>
+    let fr := match src with
+      | .param => protoFrames (proto a)
+      | .selfAttr => extra
+    (extra, out ++ [(a, Gen.catchDepth flag fr d)])
+  | (extra, out), .leave a =>
+    (if src = .selfAttr ∧ proto a = .async then Gen.exitFramesDefault else extra, out)
+
+def runShared (src : FramesSrc) (flag : Bool) (d : Int) (proto : Nat → Proto) (sched : List SStep) :
+    Int × List (Nat × Int) :=
+  sched.foldl (sharedStep src flag d proto) (Gen.exitFramesDefault, [])
+
+/-! ### `time`: when `aware_now()` looks the local UTC offset up
+
+The record's `time` is the clock reading of the call combined with a tzinfo; `Gen.tzLookup` (GENERATED from
+`loguru/_datetime.py`) says whether that tzinfo is derived from the reading itself (`.perCall`), kept from the first call or
+built at import.  A history is the sequence of UTC offsets in force at the successive calls (the zone's rules, a DST
+switch, `time.tzset()` between two calls). -/
+
+/-- the value a lookup policy yields (generic version of `lookupCtx`) -/
+def lookupVal {α : Type} (l : Lookup) (imported first now : α) : Option α :=
+  match l with
+  | .perCall => some now
+  | .cachedPerThread => some first
+  | .atImport => some imported
+  | .other => none
+
+/-- the offsets the records of a history of calls carry; `first` = the offset at the first call ever made -/
+def runOffsets (l : Lookup) (imported : Int) : Option Int → List Int → List (Option Int)
+  | _, [] => []
+  | none, now :: rest => lookupVal l imported now now :: runOffsets l imported (some now) rest
+  | some first, now :: rest => lookupVal l imported first now :: runOffsets l imported (some first) rest
+
 /-! ### `get_frame_fallback` (interpreters without `sys._getframe`) -/
 
 /-- the loop `for _ in range(n): [if frame is None: break]; frame = frame.f_back` on the chain of
